@@ -165,7 +165,8 @@ func vhCheckRecovery(orc int, w1, w2 *vhWorld, img map[uuid.UUID]*kit.Image, uni
 			fin := w2.vault.Img[in.Action.ID]
 			if n := len(aim.Attempts); n > 0 {
 				done := vhDurablyDone(aim)
-				api.Assert(!done || (len(fin.Attempts) >= n && fin.Status == workflow.Completed), "C09: a durable successful attempt is kept by recovery"+sfx)
+				// (that the action also ends Completed is C10's consistency clause, not C09's)
+				api.Assert(!done || len(fin.Attempts) >= n, "C09: a durable successful attempt is kept by recovery"+sfx)
 			}
 		}
 	}
@@ -213,13 +214,13 @@ func VerifC09BlockGroups() { vhCrashRecover(oC09, famBlockGroupsSmall, kit.ModeO
 func VerifC09Conc()        { vhCrashRecover(oC09, famConc2, kit.ModeOkFail, false) }
 func VerifC09Conc3()       { vhCrashRecover(oC09, famConc, kit.ModeOkFail, false) }
 func VerifC10Conc3()       { vhCrashRecover(oC10, famConc, kit.ModePerAction, false) }
-func VerifC09Double()      { vhCrashRecover(oC09, famSeqSmall, kit.ModeOkFail, true) }
+func VerifC09Double()      { vhCrashRecover(oC09, famTiny, kit.ModeOkFail, true) }
 
 func VerifC10Seq()         { vhCrashRecover(oC10, famSeq, kit.ModePerAction, false) }
 func VerifC10PlanGroups()  { vhCrashRecover(oC10, famPlanGroupsSmall, kit.ModeOkFail, false) }
 func VerifC10BlockGroups() { vhCrashRecover(oC10, famBlockGroupsSmall, kit.ModeOkFail, false) }
 func VerifC10Conc()        { vhCrashRecover(oC10, famConc2, kit.ModePerAction, false) }
-func VerifC10Double()      { vhCrashRecover(oC10, famSeqSmall, kit.ModePerAction, true) }
+func VerifC10Double()      { vhCrashRecover(oC10, famTiny, kit.ModePerAction, true) }
 
 var _ = shape.GBypass
 
